@@ -23,7 +23,10 @@
 (*          "gt" n1 > n2                 "lt" n1 < n2                      *)
 (*   diag   kernel(x1, x2, diag=True)    ldb   last_dim_is_batch=True      *)
 (* and is evaluated under every FORCING of the dispatch predicate:         *)
-(*   none | x1grad | x2grad | trace  (x1 / x2 requires grad, trace_mode)   *)
+(*   none | x1grad | x2grad | x12grad | trace                              *)
+(* i.e. EVERY subset of the two input tensors requiring a gradient         *)
+(* (exactly one of two different tensors: k(X_train, x_test), k(x, Z) with *)
+(* inducing points Z; both; none) and trace_mode.                          *)
 (*                                                                         *)
 (* The dispatch predicate (RBFKernel.forward / MaternKernel.forward):      *)
 (*     x1.requires_grad or x2.requires_grad                                *)
@@ -42,6 +45,16 @@
 (* a kb x 1 x 1 lengthscale would meet the d axis: silently wrong when     *)
 (* kb = d, an exception otherwise.  KCCallOK states that the dispatch      *)
 (* never hands the Function such a configuration.                          *)
+(*                                                                         *)
+(* WHO WANTS A GRADIENT (KCWants): the hand-written backward has a         *)
+(* derivative for the lengthscale only - it returns None for x1 and x2     *)
+(* (KCFnDelivers).  Every input tensor that requires grad must nevertheless*)
+(* receive the derivative of the documented function: KCCallOK states that *)
+(* the Function is never handed a call in which ANY input tensor wants a   *)
+(* gradient (the dispatch is an OR over the inputs, and so is the guard of *)
+(* the Function's forward); the replay compares the gradient delivered to  *)
+(* every tensor of KCWants with autograd of the documented formula - a     *)
+(* missing (None) gradient is a violation.                                 *)
 (*                                                                         *)
 (* The DENOTATION of a cell (KCMeaning) does not mention the forcing: all  *)
 (* forcings must give the documented covariance function and the gradient  *)
@@ -64,9 +77,13 @@ KCN2(s) == 3
 KCSameInputs(s) == s.mode \in {"same", "clone"}                           \* torch.equal(x1, x2)
 
 \* ---- the dispatch predicate, every keyword -----------------------------------------------------------
-KCForcesOf(s) == {f \in KCForces : f = "x2grad" => s.mode # "same"}        \* with x2 = None there is no second tensor to mark
-KCX1Grad(s, f) == f = "x1grad"
-KCX2Grad(s, f) == f = "x2grad" \/ (f = "x1grad" /\ s.mode = "same")        \* x2 is x1
+KCForcesOf(s) == {f \in KCForces : f \in {"x2grad", "x12grad"} => s.mode # "same"}        \* with x2 = None there is no second tensor to mark
+KCX1Grad(s, f) == f \in {"x1grad", "x12grad"}
+KCX2Grad(s, f) == f \in {"x2grad", "x12grad"} \/ (f = "x1grad" /\ s.mode = "same")        \* x2 is x1
+\* the caller's input tensors that require a gradient under forcing f (with x2 = None there is one tensor, in both roles)
+KCWants(s, f) == (IF KCX1Grad(s, f) THEN {"x1"} ELSE {}) \cup (IF f \in {"x2grad", "x12grad"} THEN {"x2"} ELSE {})
+\* what the hand-written backward returns a gradient for (None for x1, x2, the distance function)
+KCFnDelivers == {"lengthscale"}
 KCArdNumDims(s) == IF s.ls = "ard" THEN s.d ELSE 0                         \* 0 stands for None
 KCGeneric(s, f) ==
   \/ KCX1Grad(s, f) \/ KCX2Grad(s, f)
@@ -103,7 +120,7 @@ KCFormula(s) == CASE s.fam = "rbf"      -> "exp(-r^2 / 2)"
 KCParams(s) == {"raw_lengthscale"} \cup (IF s.wrap = "scale" THEN {"raw_outputscale"} ELSE {})
 KCMeaning(s) == [formula |-> KCFormula(s), r |-> IF s.ldb THEN "per input dimension: |x1[i,k] - x2[j,k]| / l_k" ELSE "|(x1[i] - x2[j]) / l|",
                  shape |-> KCOutShape(s), params |-> KCParams(s)]
-KCOut(s) == [paths |-> [f \in KCForcesOf(s) |-> KCPath(s, f)], shape |-> KCOutShape(s), lsshape |-> KCLsShape(s), params |-> KCParams(s),
+KCOut(s) == [paths |-> [f \in KCForcesOf(s) |-> KCPath(s, f)], wants |-> [f \in KCForcesOf(s) |-> KCWants(s, f)], shape |-> KCOutShape(s), lsshape |-> KCLsShape(s), params |-> KCParams(s),
              sound |-> KCFastSound(s)]
 
 KCCallOK(s) ==
@@ -111,6 +128,8 @@ KCCallOK(s) ==
   /\ \A f \in KCForcesOf(s) :
        /\ (KCPath(s, f) = "fast" => KCFastSound(s) /\ ~KCFastRejects(s, f))           \* the Function is handed only what its saved derivative is right for
        /\ (f # "none" => KCPath(s, f) = "generic")                                    \* every forcing reaches the generic branch
+       /\ (KCPath(s, f) = "fast" => KCWants(s, f) \subseteq KCFnDelivers)              \* no input tensor that wants a gradient is left with the Function's None
+       /\ (KCWants(s, f) # {} <=> (KCX1Grad(s, f) \/ KCX2Grad(s, f)))                  \* ONE tensor requiring grad is enough (or, not and)
   /\ "none" \in KCForcesOf(s)
   \* a cell whose default branch is the Function can be forced onto the other one, with the same denotation (KCMeaning has no forcing)
   /\ (KCPath(s, "none") = "fast" => \E f \in KCForcesOf(s) : KCPath(s, f) = "generic")
